@@ -908,17 +908,14 @@ Section NetmapReencode.
   Lemma upgrade_snapshot_spec nodes d' :
     Forall wf_item nodes -> item_count (IArray nodes) <= max_items ->
     upgrade_snapshot (ser (IArray nodes)) = Halt d' ->
-    (nodes = [] /\ d' = ser INull /\ deserialize d' = Halt INull) \/
-    (nodes <> [] /\ deserialize d' = Halt (IArray (map up_node nodes))).
+    deserialize d' = Halt (IArray (map up_node nodes)).
   Proof.
     intros Hwf Hc H. unfold upgrade_snapshot in H.
     rewrite deserialize_ser in H by (try exact Hc; cbn [wf_item]; apply wf_item_list; exact Hwf).
     cbn [obind item_to_list] in H. apply obind_halt in H as (nn & Hnn & H).
     apply upgrade_nodes_spec in Hnn. subst nn.
-    destruct nodes as [|n nodes].
-    - left. cbn [map] in H. apply serialize_halt in H as [-> _]. split; [reflexivity|]. split; reflexivity.
-    - right. split; [discriminate|]. cbn [map] in H. apply serialize_halt in H as [-> Hc'].
-      apply deserialize_ser; [|exact Hc']. exact (wf_up_nodes (n :: nodes) Hwf).
+    apply serialize_halt in H as [-> Hc'].
+    apply deserialize_ser; [|exact Hc']. exact (wf_up_nodes nodes Hwf).
   Qed.
 
   Definition snap_key (j : Z) : bytes := p_snapshot ++ [Z.to_N j].
@@ -1169,14 +1166,26 @@ End NNS.
 Section ContainerLists.
   Context (prevN verN : Z).
 
-  (** Layout predicate of a pre-upgrade Container storage: a key that starts
-      with 'x' or 'o' is a legacy container id (32 bytes) or owner-index key
-      (57 bytes) that happens to start with that byte — nothing else lives
-      under the two prefixes the new layout uses. *)
-  Definition legacy_wf_container (s : store) : Prop :=
+  (** Layout predicate of a pre-upgrade Container storage (decidable):
+      (a) a key that starts with 'x' or 'o' is a legacy container id (32
+          bytes) or owner-index key (57 bytes) that happens to start with
+          that byte — nothing else lives under the two prefixes the new
+          layout uses;
+      (b) every key of length 57 is a genuine owner-index entry
+          [owner(25) ++ cid(32) |-> cid] of a stored container — no other
+          shape of the contract (e.g. an estimation key with a 12-byte
+          epoch) has that length. *)
+  Definition legacy_wf_prefixes (s : store) : Prop :=
     forall (q v : bytes), s !! q = Some v ->
       head q = Some cnr_prefix \/ head q = Some owner_prefix ->
       length q = 32%nat \/ length q = 57%nat.
+
+  Definition legacy_wf_owner_index (s : store) : Prop :=
+    forall (q v : bytes), s !! q = Some v -> length q = 57%nat ->
+      v = drop 25 q /\ is_Some (s !! drop 25 q).
+
+  Definition legacy_wf_container (s : store) : Prop :=
+    legacy_wf_prefixes s /\ legacy_wf_owner_index s.
 
   Definition legacy_wf_containerb (s : store) : bool :=
     forallb (fun kv : bytes * bytes =>
@@ -1184,20 +1193,31 @@ Section ContainerLists.
                | x :: _ => if (x =? cnr_prefix)%N || (x =? owner_prefix)%N
                            then (length (fst kv) =? 32)%nat || (length (fst kv) =? 57)%nat else true
                | [] => true
-               end) (map_to_list s).
+               end &&
+               (if (length (fst kv) =? 57)%nat
+                then bytes_eqb (snd kv) (drop 25 (fst kv)) &&
+                     match s !! drop 25 (fst kv) with Some _ => true | None => false end
+                else true)) (map_to_list s).
 
   Lemma legacy_wf_containerb_spec s : legacy_wf_containerb s = true -> legacy_wf_container s.
   Proof.
-    unfold legacy_wf_containerb, legacy_wf_container. rewrite forallb_forall. intros H q v Hq Hh.
-    specialize (H (q, v) ltac:(apply elem_of_list_In, elem_of_map_to_list; exact Hq)). cbn [fst] in H.
-    destruct q as [|x q]; [destruct Hh; discriminate|]. cbn [head] in Hh.
-    assert (Hx : ((x =? cnr_prefix)%N || (x =? owner_prefix)%N) = true).
-    { destruct Hh as [[= ->]|[= ->]]; reflexivity. }
-    rewrite Hx in H. apply orb_true_iff in H as [H|H]; apply Nat.eqb_eq in H; auto.
+    unfold legacy_wf_containerb. rewrite forallb_forall. intros H. split.
+    - intros q v Hq Hh.
+      specialize (H (q, v) ltac:(apply elem_of_list_In, elem_of_map_to_list; exact Hq)). cbn [fst snd] in H.
+      apply andb_true_iff in H as [H _].
+      destruct q as [|x q]; [destruct Hh; discriminate|]. cbn [head] in Hh.
+      assert (Hx : ((x =? cnr_prefix)%N || (x =? owner_prefix)%N) = true).
+      { destruct Hh as [[= ->]|[= ->]]; reflexivity. }
+      rewrite Hx in H. apply orb_true_iff in H as [H|H]; apply Nat.eqb_eq in H; auto.
+    - intros q v Hq Hl.
+      specialize (H (q, v) ltac:(apply elem_of_list_In, elem_of_map_to_list; exact Hq)). cbn [fst snd] in H.
+      apply andb_true_iff in H as [_ H]. rewrite (proj2 (Nat.eqb_eq _ _) Hl) in H.
+      apply andb_true_iff in H as [H1 H2]. apply bytes_eqb_eq in H1. split; [exact H1|].
+      destruct (s !! drop 25 q); [eauto|discriminate].
   Qed.
 
   Lemma cnr_migrated_x s (k0 : bytes) :
-    legacy_wf_container s ->
+    legacy_wf_prefixes s ->
     cnr_migrated s (cnr_prefix :: k0) = if (length k0 =? 32)%nat then s !! k0 else None.
   Proof.
     intros Hwf.
@@ -1217,7 +1237,7 @@ Section ContainerLists.
   Qed.
 
   Lemma cnr_migrated_o s (k0 : bytes) :
-    legacy_wf_container s ->
+    legacy_wf_prefixes s ->
     cnr_migrated s (owner_prefix :: k0) = if (length k0 =? 57)%nat then s !! k0 else None.
   Proof.
     intros Hwf.
@@ -1248,7 +1268,7 @@ Section ContainerLists.
   Proof. induction l as [|[k v] l IH]; cbn; [reflexivity|]. f_equal. exact IH. Qed.
 
   Lemma container_lists_preserved e args s s' :
-    deploy_container prevN verN e args s = Halt s' -> legacy_wf_container s ->
+    deploy_container prevN verN e args s = Halt s' -> legacy_wf_prefixes s ->
     cnr_all_new s' = cnr_all_old s /\
     (forall owner, cnr_owned_new s' owner = cnr_owned_old s owner).
   Proof.
@@ -1261,6 +1281,26 @@ Section ContainerLists.
       rewrite (sfind_rekeyed owner_prefix 57 owner s s').
       + apply map_tail_rekey.
       + intros k0. rewrite Hl by (apply prefixed_not_legacy; auto). apply cnr_migrated_o. exact Hwf.
+  Qed.
+
+  (** Under the full layout predicate every entry the owner listing returns
+      after the upgrade is a genuine [owner ++ cid |-> cid] of a container
+      that [Get] finds. *)
+  Lemma container_owner_entries_genuine e args s s' owner (k v : bytes) :
+    deploy_container prevN verN e args s = Halt s' -> legacy_wf_container s ->
+    (k, v) ∈ cnr_owned_new s' owner ->
+    v = drop 25 k /\ is_Some (cnr_get_new s' (drop 25 k)).
+  Proof.
+    intros H [Hwp Hwo] Hin.
+    destruct (container_lists_preserved _ _ _ _ H Hwp) as [_ Ho]. rewrite Ho in Hin.
+    unfold cnr_owned_old in Hin. apply elem_of_list_filter in Hin as [Hl Hin]. cbn [fst] in Hl.
+    apply elem_of_sfind in Hin as [Hs _]. destruct (Hwo _ _ Hs Hl) as [-> [c Hc]].
+    split; [reflexivity|].
+    pose proof (deploy_container_lookup _ _ _ _ _ _ H) as Hlk.
+    unfold cnr_get_new, sget. rewrite Hlk by (apply prefixed_not_legacy; auto).
+    rewrite cnr_migrated_container by (rewrite drop_length; lia).
+    set (cid := drop 25 k : bytes) in *.
+    assert (Hc' : s !! cid = Some c) by exact Hc. rewrite Hc'. eauto.
   Qed.
 End ContainerLists.
 
